@@ -428,8 +428,13 @@ def _cm_place(stmts, inner, jumps, tag):
         return None
     i = idx[0]
     st, pre, post = stmts[i], stmts[:i], stmts[i + 1:]
+    def plain(x):
+        # statements that can be pasted around the block as they are: no jump leaves them
+        if isinstance(x, ast.If):
+            return all(plain(y) for y in x.body + x.orelse)
+        return isinstance(x, (ast.Assign, ast.AugAssign, ast.Expr, ast.Pass, ast.Assert))
     for x in pre + post:
-        if not isinstance(x, (ast.Assign, ast.AugAssign, ast.Expr, ast.Pass)):
+        if not plain(x):
             return None
         if any(isinstance(y, (ast.Lambda, ast.Await, ast.NamedExpr)) for y in ast.walk(x)):
             return None
@@ -477,13 +482,15 @@ def _gen_cm_spec(fdef, is_method, aliases=('contextmanager',)):
     if not any(ast.unparse(d).split('.')[-1] in aliases for d in fdef.decorator_list) or len(fdef.decorator_list) != 1:
         return None
     a = fdef.args
-    if a.vararg or a.kwarg or a.kwonlyargs or a.defaults:
+    if a.vararg or a.kwarg or a.kwonlyargs or not all(isinstance(d, ast.Constant) for d in a.defaults):
         return None
     params = [x.arg for x in a.args]
+    defaults = dict(zip(params[len(params) - len(a.defaults):], a.defaults)) if a.defaults else {}
     if is_method:
         if not params:
             return None
         me, params = params[0], params[1:]
+        defaults.pop(me, None)
     else:
         me = None
     body = [st for st in fdef.body if not (isinstance(st, ast.Expr) and isinstance(st.value, ast.Constant))]
@@ -498,7 +505,7 @@ def _gen_cm_spec(fdef, is_method, aliases=('contextmanager',)):
     stored |= {x.name for st in body for x in ast.walk(st) if isinstance(x, ast.ExceptHandler) and x.name}
     if stored & set(params):
         return None
-    return dict(me=me, params=params, body=body, locals=stored, name=fdef.name)
+    return dict(me=me, params=params, body=body, locals=stored, name=fdef.name, defaults=defaults)
 
 
 def expand_generator_context_managers(tree):
@@ -532,7 +539,8 @@ def expand_generator_context_managers(tree):
         return None
 
     def spec_for(ce, node):
-        if not (isinstance(ce, ast.Call) and not ce.keywords and all(_simple_expr(x) for x in ce.args)):
+        if not (isinstance(ce, ast.Call) and all(k.arg is not None and _simple_expr(k.value) for k in ce.keywords) and
+                all(_simple_expr(x) for x in ce.args)):
             return None
         fn = ce.func
         sp = None
@@ -540,9 +548,24 @@ def expand_generator_context_managers(tree):
             sp = specs.get((None, fn.id))
         elif isinstance(fn, ast.Attribute) and isinstance(fn.value, ast.Name) and fn.value.id == 'self':
             sp = specs.get((enclosing_class(node), fn.attr))
-        if sp is None or len(ce.args) != len(sp['params']):
+        if sp is None or bound_args(sp, ce) is None:
             return None
         return sp
+
+    def bound_args(sp, ce):
+        """the argument expression for every parameter: positional, by keyword, or the (constant) default"""
+        if len(ce.args) > len(sp['params']):
+            return None
+        got = dict(zip(sp['params'], ce.args))
+        for k in ce.keywords:
+            if k.arg not in sp['params'] or k.arg in got:
+                return None
+            got[k.arg] = k.value
+        for p_, d in sp.get('defaults', {}).items():
+            got.setdefault(p_, d)
+        if set(got) != set(sp['params']):
+            return None
+        return [got[p_] for p_ in sp['params']]
 
     def instantiate(stmts, sp, args, ref, tag):
         ren = {v: '_cm%d_%s' % (tag, v) for v in sp['locals']}
@@ -584,7 +607,7 @@ def expand_generator_context_managers(tree):
                     continue
                 counter[0] += 1
                 tag = counter[0]
-                args = item.context_expr.args
+                args = bound_args(sp, item.context_expr)
                 stmts = instantiate(sp['body'], sp, args, node, tag)
                 ystmt = [x for st in stmts for x in ast.walk(st) if _is_yield_stmt(x)][0]
                 bind = []
